@@ -17,7 +17,8 @@ def _bv(w, v):
 class Emitter:
     """Emits define-funs for DAG nodes on demand; remembers what was already defined."""
 
-    def __init__(self):
+    def __init__(self, lut_mode='uf'):
+        self.lut_mode = lut_mode
         self.defined = {}     # term id -> smt name
         self.lines = []
         self.lut_names = {}   # (id(table), base_w, w) -> name
@@ -31,8 +32,17 @@ class Emitter:
         n = 'lut%d' % len(self.lut_names)
         self.lut_names[key] = n
 
-        # an uninterpreted function pinned on every point of its (<= 8 bit) domain: old z3 and cvc5
-        # decide this form in milliseconds where nested ite trees took minutes
+        if self.lut_mode == 'ite':
+            # balanced ite tree on the bits of the argument: bit-blasts to a small circuit; best for shallow terms
+            def tree(lo, hi, bit):
+                if all(tbl[i] == tbl[lo] for i in range(lo, hi)):
+                    return _bv(w, tbl[lo])
+                mid = (lo + hi) // 2
+                return '(ite (= ((_ extract %d %d) x) #b1) %s %s)' % (bit, bit, tree(mid, hi, bit - 1), tree(lo, mid, bit - 1))
+            self.lines.append('(define-fun %s ((x (_ BitVec %d))) (_ BitVec %d) %s)' % (n, bw, w, tree(0, 1 << bw, bw - 1)))
+            return n
+        # an uninterpreted function pinned on every point of its (<= 8 bit) domain: for deeply nested luts
+        # (Reed-Solomon) z3 and cvc5 decide this form in milliseconds where nested ite trees took minutes
         self.lines.append('(declare-fun %s ((_ BitVec %d)) (_ BitVec %d))' % (n, bw, w))
         for i, v in enumerate(tbl):
             self.lines.append('(assert (= (%s %s) %s))' % (n, _bv(bw, i), _bv(w, v)))
@@ -147,14 +157,14 @@ SOLVERS = {
 class Solver:
     """One persistent solver process; queries are push/assert/check-sat/pop."""
 
-    def __init__(self, which='z3', timeout_ms=60000, logic='ALL', log=None):
+    def __init__(self, which='z3', timeout_ms=60000, logic='ALL', log=None, lut_mode='uf'):
         self.which = which
         self.timeout_ms = timeout_ms
         self.proc = subprocess.Popen(SOLVERS[which], stdin=subprocess.PIPE, stdout=subprocess.PIPE,
                                      stderr=subprocess.STDOUT, bufsize=0)
         self._buf = b''
         self._out = []
-        self.em = Emitter()
+        self.em = Emitter(lut_mode)
         self.dead = False
         self.time_s = 0.0
         self.n_queries = 0
